@@ -66,7 +66,7 @@ def generate(rng, tier):
                 for st in steps:
                     if st.get('want', '') and st['want'].startswith('tb') and st['form'] not in ('tq', 'tqprint', 'bgtask'):
                         st['inline'] = fl
-                        st['inline_at'] = rng.choice(['first', 'last'])
+                        st['inline_at'] = rng.choice(['first', 'last', 'own'])
         for st in steps:
             if (st.get('want') or '').startswith('tb') and rng.random() < 0.15:
                 st['want_indent'] = rng.choice([2, 4])      # a want written deeper than its prompt
